@@ -69,12 +69,6 @@ Id -a is given, then names are generated with the pattern "S000<i>".
 				return
 			}
 			for al := range aligns.Achan {
-				if aligns.Err != nil {
-					err = aligns.Err
-					io.LogError(err)
-					return
-				}
-
 				if trimAuto {
 					if err = al.TrimNamesAuto(namemap, &curid); err != nil {
 						io.LogError(err)
